@@ -51,6 +51,7 @@ func loadCatalogue(verif string) ([]Mutant, error) {
 func dropCaches(p *Prog) {
 	regCache.Delete(p)
 	parseVerdictCache.Delete(p)
+	constTabCache.Delete(p)
 	walkCache.Delete(walkKey{p, nil})
 }
 
